@@ -9,11 +9,35 @@ def lu_run(nn, reset, name):
                    name, workers=7, timeout=3000, coverage=True, heap="6g")
 
 
+def jacobi_run(nn):
+    return run_tlc("Jacobi.tla", cfg(constants={"NN": nn},
+                                     invariants=["EigenEquation", "Orthonormal", "Ascending", "HellmannFeynman", "OneRotation", "ExportJacobi"]),
+                   "jacobi_%d" % nn, workers=3, timeout=900)      # (no -coverage: it does not terminate on the recursive folds)
+
+
 def run(tier):
     chk = Check("C12", tier, "model_checking")
     build_harness("hfeat")
-    jobs = [lambda: lu_run(2, "ReSetN2", "lu_2"), lambda: lu_run(3, "ReSetN3" if tier == "quick" else "ReSetN3T", "lu_3")]
-    runs = parallel(jobs, 2)
+    jobs = [lambda: lu_run(2, "ReSetN2", "lu_2"), lambda: lu_run(3, "ReSetN3" if tier == "quick" else "ReSetN3T", "lu_3"),
+            lambda: jacobi_run(2), lambda: jacobi_run(3)]
+    runs = parallel(jobs, 4)
+    for r in runs[2:]:
+        chk.add_tlc(r, "jacobi_eigenvalue as a step machine (Sweep / Rot / Sort) on the rational-rotation family, block at every "
+                       "position (p, q): A V = V diag(d), V^T V = I, ascending, Hellmann-Feynman, one rotation")
+        if r.violated:
+            chk.model_violation(r, "Jacobi")
+            continue
+        # (EigenEquation cannot hold with V = I on a coupled matrix: a finished run has rotated)
+        rep = run_harness("hfeat", ["jacobi-replay", r.out_path], timeout=600)
+        chk.cov["traces_validated_against_impl"] += rep["cases"]
+        chk.cov["evaluations"] += rep["checks"]
+        for k in rep["per_case"]:
+            chk.distinct.add(k)
+        for v in rep["violations"]:
+            chk.violation("Jacobi replay: %s" % json.dumps(v)[:500], {"kind": "jacobi-case", **v})
+        if rep["cases"] < 5:
+            raise ToolError("vacuity: %d Jacobi cases" % rep["cases"])
+    runs = runs[:2]
     for r in runs:
         chk.add_tlc(r, "LU::new as a step machine (Pivot / Swap / Elim / fail) over dual-rational matrices: P A = L U, A x = b, "
                        "A A^-1 = I, determinant = Leibniz expansion (parity, Jacobi's formula), fail iff singular pivot column; "
